@@ -97,6 +97,14 @@ func (a *origAnalysis) symOf(env *oenv, v ssa.Value, d int) []osym {
 		}
 		return other()
 	case *ssa.MakeMap:
+		// a map made by a function that encloses the traversal's callback is made once, not once per series
+		if env.elem != nil && env.elem.Parent() != nil {
+			for p := env.elem.Parent().Parent(); p != nil; p = p.Parent() {
+				if p == x.Parent() {
+					return []osym{{Kind: "other", Desc: "a map made once outside the traversal (shared by every series)"}}
+				}
+			}
+		}
 		return []osym{{Kind: "freshmap"}}
 	case *ssa.Phi:
 		var out []osym
